@@ -1,1 +1,412 @@
-pub fn all_messages() -> Vec<(&'static str, &'static str, String, Vec<u8>)> { vec![] }
+//! Message enumerators: one or more values per variant of every mini-protocol
+//! message type of pallas-network (`miniprotocols::*`) and pallas-network2
+//! (`protocol::*`), with boundary payload shapes, plus the round-trip oracle
+//! used by C22.
+//!
+//! Library use: [`all_messages`] returns `(stack, protocol, variant, bytes)`
+//! for every case whose encoder produced bytes.
+
+use mc_core::catch;
+use mc_core::refcbor;
+use pallas_codec::minicbor;
+use std::fmt::Debug;
+
+pub mod localtx;
+pub mod net1;
+pub mod net2;
+
+#[derive(Debug, Clone)]
+pub struct Failure {
+    /// malformed-cbor | encode-error | decode-error | reencode-differs |
+    /// value-differs | panic-in-encode | panic-in-decode | oracle-disagreement
+    pub kind: &'static str,
+    pub detail: String,
+    /// `PanicInfo::site()` for the panic kinds.
+    pub panic_site: Option<String>,
+}
+
+#[derive(Debug, Clone)]
+pub struct Outcome {
+    pub bytes: Option<Vec<u8>>,
+    pub debug: String,
+    pub failure: Option<Failure>,
+}
+
+type Run = Box<dyn Fn() -> Outcome + Send + Sync>;
+
+pub struct Case {
+    pub stack: &'static str,
+    pub protocol: &'static str,
+    /// Message variant (Rust name).
+    pub variant: String,
+    /// Payload shape of this case.
+    pub shape: String,
+    /// Type label blamed when the message-level check fails and no probe does.
+    pub type_label: String,
+    pub run: Run,
+    /// Stand-alone round trips of component values, innermost first; consulted
+    /// only to attribute a message-level failure to the responsible codec.
+    pub probes: Vec<(String, Run)>,
+}
+
+impl Case {
+    pub fn probe<T>(mut self, label: &str, v: T) -> Self
+    where
+        T: minicbor::Encode<()> + for<'b> minicbor::Decode<'b, ()> + Debug + Send + Sync + 'static,
+    {
+        self.probes.push((label.to_string(), Box::new(move || roundtrip(&v, &|x| format!("{x:?}")))));
+        self
+    }
+    pub fn label(mut self, l: &str) -> Self {
+        self.type_label = l.to_string();
+        self
+    }
+}
+
+pub fn mk<T>(stack: &'static str, protocol: &'static str, variant: &str, shape: &str, v: T) -> Case
+where
+    T: minicbor::Encode<()> + for<'b> minicbor::Decode<'b, ()> + Debug + Send + Sync + 'static,
+{
+    mk_with(stack, protocol, variant, shape, v, |x| format!("{x:?}"))
+}
+
+pub fn mk_with<T>(stack: &'static str, protocol: &'static str, variant: &str, shape: &str, v: T, render: fn(&T) -> String) -> Case
+where
+    T: minicbor::Encode<()> + for<'b> minicbor::Decode<'b, ()> + Debug + Send + Sync + 'static,
+{
+    Case {
+        stack,
+        protocol,
+        variant: variant.to_string(),
+        shape: shape.to_string(),
+        type_label: format!("{protocol}::Message::{variant}"),
+        run: Box::new(move || roundtrip(&v, &render)),
+        probes: vec![],
+    }
+}
+
+fn fail(bytes: Option<Vec<u8>>, debug: String, kind: &'static str, detail: String, site: Option<String>) -> Outcome {
+    Outcome { bytes, debug, failure: Some(Failure { kind, detail, panic_site: site }) }
+}
+
+/// Strict well-formedness by the independent parser, cross-checked with
+/// ciborium. `Ok(())` = exactly one well-formed item.
+pub fn strict_single_item(bytes: &[u8]) -> Result<(), Failure> {
+    let strict = refcbor::parse_one(bytes);
+    let cib: Result<ciborium::Value, _> = ciborium::de::from_reader(bytes);
+    match &strict {
+        Ok(n) => {
+            if n.to_vec() != bytes {
+                return Err(Failure { kind: "oracle-disagreement", detail: "refcbor re-encoding differs from its input".into(), panic_site: None });
+            }
+            if cib.is_err() {
+                return Err(Failure { kind: "oracle-disagreement", detail: format!("refcbor accepts, ciborium rejects: {:?}", cib.err()), panic_site: None });
+            }
+            Ok(())
+        }
+        Err(refcbor::Error::Trailing(at)) => Err(Failure {
+            kind: "malformed-cbor",
+            detail: format!("one item ends at byte {at} of {}, trailing bytes follow", bytes.len()),
+            panic_site: None,
+        }),
+        Err(e) => {
+            if cib.is_ok() {
+                return Err(Failure { kind: "oracle-disagreement", detail: format!("refcbor rejects ({e:?}), ciborium accepts"), panic_site: None });
+            }
+            Err(Failure { kind: "malformed-cbor", detail: format!("strict parser: {e:?}; ciborium: {}", cib.err().map(|e| format!("{e:?}")).unwrap_or_default()), panic_site: None })
+        }
+    }
+}
+
+/// encode -> strict single item -> decode -> same bytes and same rendering.
+pub fn roundtrip<T>(v: &T, render: &dyn Fn(&T) -> String) -> Outcome
+where
+    T: minicbor::Encode<()> + for<'b> minicbor::Decode<'b, ()>,
+{
+    let debug = match catch(|| render(v)) {
+        Ok(s) => s,
+        Err(p) => return fail(None, String::new(), "panic-in-encode", format!("Debug panicked: {} at {}", p.message, p.location), Some(p.site())),
+    };
+    let bytes = match catch(|| minicbor::to_vec(v)) {
+        Err(p) => return fail(None, debug, "panic-in-encode", format!("{} at {}", p.message, p.location), Some(p.site())),
+        Ok(Err(e)) => return fail(None, debug, "encode-error", format!("{e}"), None),
+        Ok(Ok(b)) => b,
+    };
+    if let Err(f) = strict_single_item(&bytes) {
+        return Outcome { bytes: Some(bytes), debug, failure: Some(f) };
+    }
+    let back: T = match catch(|| minicbor::decode::<T>(&bytes)) {
+        Err(p) => return fail(Some(bytes), debug, "panic-in-decode", format!("{} at {}", p.message, p.location), Some(p.site())),
+        Ok(Err(e)) => return fail(Some(bytes), debug, "decode-error", format!("{e}"), None),
+        Ok(Ok(b)) => b,
+    };
+    let bytes2 = match catch(|| minicbor::to_vec(&back)) {
+        Err(p) => return fail(Some(bytes), debug, "panic-in-encode", format!("re-encoding the decoded value: {} at {}", p.message, p.location), Some(p.site())),
+        Ok(Err(e)) => return fail(Some(bytes), debug, "encode-error", format!("re-encoding the decoded value: {e}"), None),
+        Ok(Ok(b)) => b,
+    };
+    if bytes2 != bytes {
+        return fail(Some(bytes), debug, "reencode-differs", format!("decoded value re-encodes to {}", hex::encode(&bytes2)), None);
+    }
+    let d2 = render(&back);
+    if d2 != debug {
+        return fail(Some(bytes), debug, "value-differs", format!("decoded value renders as {d2}"), None);
+    }
+    Outcome { bytes: Some(bytes), debug, failure: None }
+}
+
+pub fn all_cases(thorough: bool) -> Vec<Case> {
+    let mut v = vec![];
+    net1::cases(&mut v, thorough);
+    net2::cases(&mut v, thorough);
+    v
+}
+
+/// One encoded message per case (several payload shapes per variant) of every
+/// mini-protocol of both stacks: `(stack, protocol, "Variant/shape", bytes)`.
+/// Cases whose encoder fails or panics are omitted.
+pub fn all_messages() -> Vec<(&'static str, &'static str, String, Vec<u8>)> {
+    all_cases(false)
+        .into_iter()
+        .filter_map(|c| {
+            let o = (c.run)();
+            o.bytes.map(|b| (c.stack, c.protocol, format!("{}/{}", c.variant, c.shape), b))
+        })
+        .collect()
+}
+
+// ------------------------------------------------------------------ shared
+// The six protocols that exist in both stacks with the same shapes. Expanded
+// inside `net1` / `net2`, where `hs`, `cs`, `ka`, `ps`, `txs`, `Point`, `TxMsg`,
+// `PortT` and `STACK` name the stack's own items.
+
+#[macro_export]
+macro_rules! shared_protocol_cases {
+    () => {
+        fn vt_sorted<D: std::fmt::Debug + Clone>(t: &hs::VersionTable<D>) -> String {
+            let mut v: Vec<(&u64, &D)> = t.values.iter().collect();
+            v.sort_by_key(|x| *x.0);
+            format!("{v:?}")
+        }
+        fn hs_render<D: std::fmt::Debug + Clone>(m: &hs::Message<D>) -> String {
+            match m {
+                hs::Message::Propose(t) => format!("Propose({})", vt_sorted(t)),
+                hs::Message::QueryReply(t) => format!("QueryReply({})", vt_sorted(t)),
+                other => format!("{other:?}"),
+            }
+        }
+        pub fn points() -> Vec<(&'static str, Point)> {
+            vec![
+                ("origin", Point::Origin),
+                ("slot0", Point::Specific(0, vec![0u8; 32])),
+                ("slot23", Point::Specific(23, vec![0x17; 32])),
+                ("slotmax", Point::Specific(u64::MAX, vec![0xff; 32])),
+            ]
+        }
+        pub fn tips() -> Vec<(&'static str, cs::Tip)> {
+            vec![
+                ("tip-origin-0", cs::Tip(Point::Origin, 0)),
+                ("tip-specific-24", cs::Tip(Point::Specific(1 << 32, vec![0xab; 32]), 24)),
+                ("tip-specific-max", cs::Tip(Point::Specific(u64::MAX, vec![0xff; 32]), u64::MAX)),
+            ]
+        }
+        fn refuse_reasons() -> Vec<(&'static str, hs::RefuseReason)> {
+            vec![
+                ("mismatch-empty", hs::RefuseReason::VersionMismatch(vec![])),
+                ("mismatch-3", hs::RefuseReason::VersionMismatch(vec![7, 13, u64::MAX])),
+                ("decode-error-empty", hs::RefuseReason::HandshakeDecodeError(0, String::new())),
+                ("decode-error-text", hs::RefuseReason::HandshakeDecodeError(13, "unknown version \u{00e9}\u{4e16}".into())),
+                ("refused", hs::RefuseReason::Refused(32784, "x".repeat(300))),
+            ]
+        }
+        fn handshake_for<D>(out: &mut Vec<Case>, proto: &'static str, datas: Vec<(&'static str, D)>, versions: [u64; 3])
+        where
+            D: std::fmt::Debug + Clone + Send + Sync + 'static + minicbor::Encode<()> + for<'b> minicbor::Decode<'b, ()>,
+        {
+            // tables with 0, 1 and 3 entries, every version data value used
+            let mut tables: Vec<(String, hs::VersionTable<D>)> = vec![("table0".into(), hs::VersionTable { values: Default::default() })];
+            for (dn, d) in &datas {
+                tables.push((format!("table1[{dn}]"), hs::VersionTable { values: [(versions[0], d.clone())].into_iter().collect() }));
+            }
+            for i in 0..datas.len() {
+                let vals = (0..3).map(|k| (versions[k], datas[(i + k) % datas.len()].1.clone())).collect();
+                tables.push((format!("table3[{}..]", datas[i].0), hs::VersionTable { values: vals }));
+            }
+            for (tn, t) in &tables {
+                out.push(mk_with(STACK, proto, "Propose", tn, hs::Message::<D>::Propose(t.clone()), hs_render::<D>));
+                out.push(mk_with(STACK, proto, "QueryReply", tn, hs::Message::<D>::QueryReply(t.clone()), hs_render::<D>));
+            }
+            for (dn, d) in &datas {
+                for v in [0u64, versions[0], u64::MAX] {
+                    out.push(mk_with(STACK, proto, "Accept", &format!("v{v}/{dn}"), hs::Message::<D>::Accept(v, d.clone()), hs_render::<D>).probe("handshake::VersionData", d.clone()));
+                }
+            }
+            for (rn, r) in refuse_reasons() {
+                out.push(mk_with(STACK, proto, "Refuse", rn, hs::Message::<D>::Refuse(r.clone()), hs_render::<D>).probe("handshake::RefuseReason", r));
+            }
+        }
+        fn handshake(out: &mut Vec<Case>) {
+            // only field combinations the wire format can represent:
+            // peer_sharing and query are present together or absent together
+            let mut n2n = vec![];
+            for (mn, magic) in [("magic0", 0u64), ("mainnet", 764824073), ("magicmax", u64::MAX)] {
+                for mode in [false, true] {
+                    n2n.push((Box::leak(format!("{mn}/{mode}/short").into_boxed_str()) as &'static str, hs::n2n::VersionData::new(magic, mode, None, None)));
+                    for (ps_, q) in [(0u8, false), (1, true), (255, false)] {
+                        n2n.push((
+                            Box::leak(format!("{mn}/{mode}/ps{ps_}/q{q}").into_boxed_str()) as &'static str,
+                            hs::n2n::VersionData::new(magic, mode, Some(ps_), Some(q)),
+                        ));
+                    }
+                }
+            }
+            handshake_for(out, "handshake-n2n", n2n, [13, 14, 15]);
+            let mut n2c = vec![];
+            for (mn, magic) in [("magic0", 0u64), ("magic23", 23), ("mainnet", 764824073), ("magicmax", u64::MAX)] {
+                for q in [None, Some(false), Some(true)] {
+                    n2c.push((Box::leak(format!("{mn}/{q:?}").into_boxed_str()) as &'static str, hs::n2c::VersionData::new(magic, q)));
+                }
+            }
+            handshake_for(out, "handshake-n2c", n2c, [32784, 32778, 1]);
+        }
+        fn headers() -> Vec<(&'static str, cs::HeaderContent)> {
+            vec![
+                ("byron-min", cs::HeaderContent { variant: 0, byron_prefix: Some((0, 0)), cbor: vec![] }),
+                ("byron-max", cs::HeaderContent { variant: 0, byron_prefix: Some((255, u64::MAX)), cbor: vec![0x5a; 300] }),
+                ("shelley", cs::HeaderContent { variant: 1, byron_prefix: None, cbor: vec![0x80] }),
+                ("conway", cs::HeaderContent { variant: 6, byron_prefix: None, cbor: vec![0x82, 0x01, 0x02] }),
+                ("era255", cs::HeaderContent { variant: 255, byron_prefix: None, cbor: vec![0xa5; 70000] }),
+            ]
+        }
+        fn chainsync_common<C>(out: &mut Vec<Case>, proto: &'static str)
+        where
+            C: std::fmt::Debug + Send + Sync + 'static + minicbor::Encode<()> + for<'b> minicbor::Decode<'b, ()>,
+        {
+            out.push(mk(STACK, proto, "RequestNext", "-", cs::Message::<C>::RequestNext));
+            out.push(mk(STACK, proto, "AwaitReply", "-", cs::Message::<C>::AwaitReply));
+            out.push(mk(STACK, proto, "Done", "-", cs::Message::<C>::Done));
+            for (pn, p) in points() {
+                for (tn, t) in tips() {
+                    out.push(mk(STACK, proto, "RollBackward", &format!("{pn}/{tn}"), cs::Message::<C>::RollBackward(p.clone(), t.clone())).probe("Point", p.clone()).probe("chainsync::Tip", t.clone()));
+                    out.push(mk(STACK, proto, "IntersectFound", &format!("{pn}/{tn}"), cs::Message::<C>::IntersectFound(p.clone(), t.clone())));
+                }
+            }
+            for (tn, t) in tips() {
+                out.push(mk(STACK, proto, "IntersectNotFound", tn, cs::Message::<C>::IntersectNotFound(t)));
+            }
+            let ps: Vec<Point> = points().into_iter().map(|x| x.1).collect();
+            for n in [0usize, 1, 3, 4] {
+                out.push(mk(STACK, proto, "FindIntersect", &format!("{n}-points"), cs::Message::<C>::FindIntersect(ps[..n].to_vec())));
+            }
+            out.push(mk(STACK, proto, "FindIntersect", "30-points", cs::Message::<C>::FindIntersect((0..30).map(|i| Point::Specific(i * 1000, vec![i as u8; 32])).collect())));
+        }
+        fn chainsync(out: &mut Vec<Case>) {
+            chainsync_common::<cs::HeaderContent>(out, "chainsync-n2n");
+            for (hn, h) in headers() {
+                for (tn, t) in tips() {
+                    out.push(
+                        mk(STACK, "chainsync-n2n", "RollForward", &format!("{hn}/{tn}"), cs::Message::RollForward(h.clone(), t.clone()))
+                            .probe("chainsync::HeaderContent", cs::HeaderContent { variant: h.variant, byron_prefix: h.byron_prefix, cbor: h.cbor.clone() }),
+                    );
+                }
+            }
+            chainsync_common::<cs::BlockContent>(out, "chainsync-n2c");
+            for (bn, b) in [("empty", vec![]), ("small", vec![0x82, 0x00, 0x80]), ("24", vec![0x11; 24]), ("256", vec![0x22; 256]), ("65536", vec![0x33; 65536])] {
+                for (tn, t) in tips() {
+                    out.push(mk(STACK, "chainsync-n2c", "RollForward", &format!("{bn}/{tn}"), cs::Message::RollForward(cs::BlockContent(b.clone()), t.clone())));
+                }
+            }
+            // content-skipping flavour
+            chainsync_common::<cs::SkippedContent>(out, "chainsync-skip");
+            for (tn, t) in tips() {
+                out.push(mk(STACK, "chainsync-skip", "RollForward", tn, cs::Message::RollForward(cs::SkippedContent, t)));
+            }
+        }
+        fn keepalive(out: &mut Vec<Case>) {
+            for c in [0u16, 23, 24, 255, 256, 65535] {
+                out.push(mk(STACK, "keepalive", "KeepAlive", &format!("cookie{c}"), ka::Message::KeepAlive(c)));
+                out.push(mk(STACK, "keepalive", "ResponseKeepAlive", &format!("cookie{c}"), ka::Message::ResponseKeepAlive(c)));
+            }
+            out.push(mk(STACK, "keepalive", "Done", "-", ka::Message::Done));
+        }
+        fn peer_addrs() -> Vec<(String, ps::PeerAddress)> {
+            use std::net::{Ipv4Addr, Ipv6Addr};
+            let mut v = vec![];
+            for port in [0 as PortT, 3001, 65535, PortT::MAX] {
+                if v.iter().any(|x: &(String, ps::PeerAddress)| x.0.ends_with(&format!(":{port}"))) {
+                    continue;
+                }
+                for (an, a) in [("0.0.0.0", Ipv4Addr::new(0, 0, 0, 0)), ("10.0.0.1", Ipv4Addr::new(10, 0, 0, 1)), ("255.255.255.255", Ipv4Addr::new(255, 255, 255, 255))] {
+                    v.push((format!("v4:{an}:{port}"), ps::PeerAddress::V4(a, port)));
+                }
+                for (an, a) in [
+                    ("::", Ipv6Addr::new(0, 0, 0, 0, 0, 0, 0, 0)),
+                    ("2001:db8::1", Ipv6Addr::new(0x2001, 0xdb8, 0, 0, 0, 0, 0, 1)),
+                    ("ffff:..:ffff", Ipv6Addr::new(0xffff, 0xffff, 0xffff, 0xffff, 0xffff, 0xffff, 0xffff, 0xffff)),
+                ] {
+                    v.push((format!("v6:{an}:{port}"), ps::PeerAddress::V6(a, port)));
+                }
+            }
+            v
+        }
+        fn peersharing(out: &mut Vec<Case>) {
+            for n in [0u8, 23, 24, 255] {
+                out.push(mk(STACK, "peersharing", "ShareRequest", &format!("amount{n}"), ps::Message::ShareRequest(n)));
+            }
+            out.push(mk(STACK, "peersharing", "Done", "-", ps::Message::Done));
+            out.push(mk(STACK, "peersharing", "SharePeers", "empty", ps::Message::SharePeers(vec![])));
+            let addrs = peer_addrs();
+            for (an, a) in &addrs {
+                let which = if matches!(a, ps::PeerAddress::V4(..)) { "peersharing::PeerAddress::V4" } else { "peersharing::PeerAddress::V6" };
+                out.push(mk(STACK, "peersharing", "SharePeers", &format!("one[{an}]"), ps::Message::SharePeers(vec![a.clone()])).probe(which, a.clone()));
+            }
+            let v4: Vec<ps::PeerAddress> = addrs.iter().filter(|a| matches!(a.1, ps::PeerAddress::V4(..))).map(|a| a.1.clone()).collect();
+            let v6: Vec<ps::PeerAddress> = addrs.iter().filter(|a| matches!(a.1, ps::PeerAddress::V6(..))).map(|a| a.1.clone()).collect();
+            out.push(mk(STACK, "peersharing", "SharePeers", "three-v4", ps::Message::SharePeers(v4[..3].to_vec())).probe("peersharing::PeerAddress::V4", v4[0].clone()));
+            out.push(mk(STACK, "peersharing", "SharePeers", "v4-v6-v4", ps::Message::SharePeers(vec![v4[0].clone(), v6[1].clone(), v4[1].clone()])).probe("peersharing::PeerAddress::V6", v6[1].clone()));
+        }
+        fn txsubmission(out: &mut Vec<Case>) {
+            let p = "txsubmission";
+            out.push(mk(STACK, p, "Init", "-", TxMsg::Init));
+            out.push(mk(STACK, p, "Done", "-", TxMsg::Done));
+            for b in [false, true] {
+                for (a, r) in [(0u16, 0u16), (0, 1), (23, 24), (255, 256), (65535, 65535)] {
+                    out.push(mk(STACK, p, "RequestTxIds", &format!("blocking={b}/ack{a}/req{r}"), TxMsg::RequestTxIds(b, a, r)));
+                }
+            }
+            let ids: Vec<(&str, txs::EraTxId)> = vec![
+                ("era0-empty-id", txs::EraTxId(0, vec![])),
+                ("era6-id32", txs::EraTxId(6, vec![0xaa; 32])),
+                ("era65535-id32", txs::EraTxId(65535, vec![0xff; 32])),
+            ];
+            let all_ids: Vec<txs::EraTxId> = ids.iter().map(|x| x.1.clone()).collect();
+            out.push(mk(STACK, p, "ReplyTxIds", "empty", TxMsg::ReplyTxIds(vec![])));
+            out.push(mk(STACK, p, "RequestTxs", "empty", TxMsg::RequestTxs(vec![])));
+            out.push(mk(STACK, p, "ReplyTxs", "empty", TxMsg::ReplyTxs(vec![])));
+            for (n, id) in &ids {
+                for size in [0u32, 16384, u32::MAX] {
+                    out.push(mk(STACK, p, "ReplyTxIds", &format!("one[{n}/size{size}]"), TxMsg::ReplyTxIds(vec![txs::TxIdAndSize(id.clone(), size)])).probe("txsubmission::EraTxId", id.clone()));
+                }
+                out.push(mk(STACK, p, "RequestTxs", &format!("one[{n}]"), TxMsg::RequestTxs(vec![id.clone()])));
+            }
+            out.push(mk(STACK, p, "ReplyTxIds", "three", TxMsg::ReplyTxIds(all_ids.iter().map(|i| txs::TxIdAndSize(i.clone(), 500)).collect())));
+            out.push(mk(STACK, p, "RequestTxs", "three", TxMsg::RequestTxs(all_ids.clone())));
+            let bodies: Vec<(&str, txs::EraTxBody)> = vec![
+                ("era0-empty", txs::EraTxBody(0, vec![])),
+                ("era6-small", txs::EraTxBody(6, vec![0x84, 0xa0, 0xa0, 0xf5, 0xf6])),
+                ("era65535-16k", txs::EraTxBody(65535, vec![0x77; 16384])),
+            ];
+            for (n, b) in &bodies {
+                out.push(mk(STACK, p, "ReplyTxs", &format!("one[{n}]"), TxMsg::ReplyTxs(vec![b.clone()])).probe("txsubmission::EraTxBody", b.clone()));
+            }
+            out.push(mk(STACK, p, "ReplyTxs", "three", TxMsg::ReplyTxs(bodies.iter().map(|b| b.1.clone()).collect())));
+        }
+        pub fn shared(out: &mut Vec<Case>) {
+            handshake(out);
+            chainsync(out);
+            keepalive(out);
+            peersharing(out);
+            txsubmission(out);
+        }
+    };
+}
